@@ -85,6 +85,7 @@ fn new_value(r: &mut Rng, nm: &mut Names, tag: u64) -> u64 {
 // ------------------------------------------------------------------------------------ vault
 const MASTER: &[u8] = b"correct horse battery staple";
 struct Ctx {
+    cfg: VaultConfig,
     vault: Vault,
     store: TensorStore,
     graph: Arc<GraphEngine>,
@@ -98,8 +99,8 @@ fn mk_vault(pol: (u64, u64, u64)) -> Ctx {
     cfg.argon2_parallelism = 1;
     cfg.salt = Some([7u8; 16]);
     cfg.attenuation = AttenuationPolicy { admin_limit: pol.0 as usize, write_limit: pol.1 as usize, horizon: pol.2 as usize };
-    let vault = Vault::new(MASTER, graph.clone(), store.clone(), cfg).unwrap();
-    Ctx { vault, store, graph }
+    let vault = Vault::new(MASTER, graph.clone(), store.clone(), cfg.clone()).unwrap();
+    Ctx { cfg, vault, store, graph }
 }
 fn node(g: &GraphEngine, key: &str) -> u64 {
     if let Ok(ns) = g.find_nodes_by_property("entity_key", &PropertyValue::String(key.to_string())) {
@@ -151,6 +152,7 @@ enum Op {
     Sealed(u64, u64, u64),
     RevokeDeleg(u64, u64),
     RevokeCascade(u64, u64),
+    Restart,
     Perm(u64, u64),
     Member(u64, u64),
     Unmember(u64, u64),
@@ -174,6 +176,7 @@ impl Op {
             Op::Sealed(d, r, s) => format!("OSealed {d} {r} {s}"),
             Op::RevokeDeleg(p, c) => format!("ORevokeDeleg {p} {c}"),
             Op::RevokeCascade(p, c) => format!("ORevokeCascade {p} {c}"),
+            Op::Restart => "ORestart".to_string(),
             Op::Perm(r, s) => format!("OPerm {r} {s}"),
             Op::Member(a, b) => format!("OMember {a} {b}"),
             Op::Unmember(a, b) => format!("OUnmember {a} {b}"),
@@ -286,6 +289,13 @@ fn run_ops(c: &mut Ctx, nm: &Names, ops: &[Op], dist: &mut Dist) -> Out {
                 let res = v.revoke_delegation_cascading(nm.ent(*p), nm.ent(*ch)).map(|_| ());
                 format!("ACode {}", code_of(res, &mut out))
             }
+            Op::Restart => {
+                // drop the vault, build a new one over the same store and graph (persisted TTL tracker,
+                // delegation records ... are reloaded)
+                let cfg = c.cfg.clone();
+                c.vault = Vault::new(MASTER, c.graph.clone(), c.store.clone(), cfg).unwrap();
+                "ACode 0".to_string()
+            }
             Op::Perm(r, s) => format!("ALevel {}", opt(Some(n(v.get_permission(nm.ent(*r), nm.sec(*s)).map(lvl_code).unwrap_or(0))))),
             Op::Member(a, b) => {
                 let (x, y) = (node(&c.graph, nm.ent(*a)), node(&c.graph, nm.ent(*b)));
@@ -320,6 +330,7 @@ fn run_ops(c: &mut Ctx, nm: &Names, ops: &[Op], dist: &mut Dist) -> Out {
             Op::Sealed(..) => "op.sealed_window",
             Op::RevokeDeleg(..) => "op.revoke_delegation",
             Op::RevokeCascade(..) => "op.revoke_delegation_cascading",
+            Op::Restart => "op.restart",
             Op::Perm(..) => "op.get_permission",
             Op::Member(..) => "op.member_add",
             Op::Unmember(..) => "op.member_remove",
@@ -974,6 +985,83 @@ fn main() {
             Op::Get(1, 0),
         ];
         run_history(945, (1, 2, 10), nm, ops, "corpus grants and revokes attempted with Write / Read only", &mut hist, &mut scan, &mut dist, &mut hits);
+    }
+
+    {
+        // seeded C14-r5-1 shape: delegation DIAMOND with different secrets per branch, cascading revoke at the top
+        let mut nm = mk_names(&mut rng, 5, 1, 2, 950);
+        let v0 = new_value(&mut rng, &mut nm, 950);
+        let v1 = new_value(&mut rng, &mut nm, 950);
+        let mut ops = vec![
+            Op::Set(0, 0, v0),
+            Op::Set(0, 1, v1),
+            Op::Grant(0, 1, 0, 3, None),
+            Op::Grant(0, 1, 1, 3, None),
+            Op::Delegate(1, 2, vec![0, 1], 1, None),
+            Op::Delegate(2, 3, vec![0], 1, None),
+            Op::Delegate(2, 4, vec![1], 1, None),
+            Op::Delegate(3, 5, vec![0], 1, None),
+            Op::Delegate(4, 5, vec![1], 1, None),
+            Op::Perm(5, 0),
+            Op::Perm(5, 1),
+            Op::RevokeCascade(1, 2),
+        ];
+        for e in 2..=5u64 {
+            for sx in 0..2u64 {
+                ops.push(Op::Perm(e, sx));
+                ops.push(Op::Get(e, sx));
+            }
+        }
+        ops.push(Op::ListExact(5, 0));
+        ops.push(Op::ListExact(5, 1));
+        run_history(950, (3, 3, 10), nm, ops, "corpus delegation diamond (different secrets per branch), cascading revoke", &mut hist, &mut scan, &mut dist, &mut hits);
+        // seeded C14-r5-2 shape: WRITE (and Read) grants at 2, 3, 4 hops under every small policy
+        for (pi, pol) in [(1u64, 2u64, 10u64), (1, 1, 10), (0, 1, 3), (2, 2, 4)].iter().enumerate() {
+            let tag = 951 + pi as u64;
+            let mut nm = mk_names(&mut rng, 2, 3, 3, tag);
+            let vs: Vec<u64> = (0..5).map(|_| new_value(&mut rng, &mut nm, tag)).collect();
+            let ops = vec![
+                Op::Set(0, 0, vs[0]),
+                Op::Set(0, 1, vs[1]),
+                Op::Set(0, 2, vs[2]),
+                Op::Member(1, 3),
+                Op::Member(3, 4),
+                Op::Member(4, 5),
+                Op::Grant(0, 3, 0, 2, None), // Write at 2 hops
+                Op::Grant(0, 4, 1, 2, None), // Write at 3 hops
+                Op::Grant(0, 5, 2, 2, None), // Write at 4 hops
+                Op::Perm(1, 0),
+                Op::Perm(1, 1),
+                Op::Perm(1, 2),
+                Op::Rotate(1, 0, vs[3]),
+                Op::Rotate(1, 1, vs[3]),
+                Op::Rotate(1, 2, vs[4]),
+                Op::Set(1, 1, vs[4]),
+                Op::Get(1, 2),
+                Op::Delegate(1, 2, vec![1], 2, None),
+                Op::Perm(2, 1),
+            ];
+            run_history(tag, *pol, nm, ops, "corpus Write grants at 2, 3 and 4 hops", &mut hist, &mut scan, &mut dist, &mut hits);
+        }
+        // seeded C14-r5-3 shape: an OVERDUE tracker entry is persisted (root's grant does not sweep), the vault restarts
+        let mut nm = mk_names(&mut rng, 3, 1, 1, 956);
+        let v0 = new_value(&mut rng, &mut nm, 956);
+        let v1 = new_value(&mut rng, &mut nm, 956);
+        let ops = vec![
+            Op::Set(0, 0, v0),
+            Op::Grant(0, 1, 0, 2, Some(1)),     // 20 ms
+            Op::Tick(1),                        // 120 ms: overdue, nobody swept yet
+            Op::Grant(0, 2, 0, 1, Some(LONG)),  // by root: no sweep; the tracker (overdue entry included) is persisted
+            Op::Restart,
+            Op::Perm(1, 0),
+            Op::Get(1, 0),
+            Op::Rotate(1, 0, v1),
+            Op::Get(2, 0),
+            Op::Restart,
+            Op::Get(1, 0),
+            Op::Get(2, 0),
+        ];
+        run_history(956, (1, 2, 10), nm, ops, "corpus overdue TTL entry persisted, vault restarted", &mut hist, &mut scan, &mut dist, &mut hits);
     }
 
     // ---- random long mixed histories
